@@ -364,6 +364,17 @@ def run_case(case):
                     raise Violation("incompatible_buffer_accepted", -1, {"port_direction": pd, "buffer_direction": bd,
                                                                          "buffer": mkb.__name__})
         P["incompatible_buffers_refused"] = P.get("incompatible_buffers_refused", 0) + 1
+        # "comb" is not a clock domain: a registered buffer in it would have no register at all (one stage per direction is the
+        # contract), so it is refused when the buffer is made
+        for mkb in (io.FFBuffer, io.DDRBuffer):
+            for dd, kw_ in (("i", {"i_domain": "comb"}), ("o", {"o_domain": "comb"}), ("io", {"i_domain": "comb"}),
+                            ("io", {"o_domain": "comb"})):
+                try:
+                    mkb(dd, io.SimulationPort(dd, 2, name="spc"), **kw_)
+                except ValueError:
+                    continue
+                raise Violation("registered_buffer_in_comb_domain_accepted", -1, {"buffer": mkb.__name__, "dir": dd, **kw_})
+        P["comb_domain_buffers_refused"] = P.get("comb_domain_buffers_refused", 0) + 1
         # Input + Output must be refused for every port kind
         for mk in (lambda dd, nm: io.SingleEndedPort(IOPort(1, name=nm), direction=dd),
                    lambda dd, nm: io.DifferentialPort(IOPort(1, name=nm + "p"), IOPort(1, name=nm + "n"), direction=dd),
